@@ -152,7 +152,9 @@ enum Grid { G_NONE, G_COARSE, G_FINE, G_IRREG, G_N };
 const char* GN[] = {"none", "coarse", "fine", "irregular"};
 enum Hist { H_PLAIN, H_SETVAR, H_REINIT, H_COPY, H_N };
 const char* HN[] = {"plain", "set-variable-mid-run", "re-initialize-mid-run", "copy-state-at-every-return"};
-const double TEND = 1.0, TMID = 0.4, ACC = 1e-5, HFIX = 0.004;
+const double TEND = 1.0, TMID = 0.4, ACC = 1e-5, HFIX = 0.02;
+// bound on |integral error| / (accuracy * scale) per error-controlled integrator: >= 100x the worst ratio measured on the unchanged tree
+const double INTBOUND[] = {2.5e4, 100, 10, 1.5e4, 150, 0, 1.5e4, 3e3, 1.5e3};
 
 std::unique_ptr<Integrator> makeInteg(int k, const System& sys) {
     switch (k) {
@@ -252,7 +254,15 @@ void runCase(verif::Run& run, const std::vector<Tree>& trees, const CaseId& id, 
     // entries, ...) of an operand without time dependence therefore survives a setValue().  All oracle failures of that class
     // after the change are keyed under this prefix.
     const bool staleClass = id.hist == H_SETVAR && !tree.hasTime && !tree.hasSin;
-    std::string pfx;
+    bool staleNow = false;      // set once the Variable has been changed in a staleClass case
+    // all oracles go through here; in the stale class every failure is reported under one precise key
+    auto resid = [&](const std::string& name, double value, double bound, const std::function<std::string()>& where_, const std::function<std::string()>& replay_) {
+        if (!staleNow) return run.residual(name, value, bound, where_, replay_);
+        bool ok = value <= bound;
+        run.count(std::string("stale-class:") + name + (ok ? ":ok" : ":FAIL"));
+        return run.expect(ok, "Variable-setValue/not-seen-by-values-cached-at-Model-stage",
+                          [&] { return name + ": residual " + verif::fmtd(value) + " > bound " + verif::fmtd(bound) + " after Measure::Variable::setValue at " + where_(); }, replay_);
+    };
 
     try { integ->initialize(init); }
     catch (const std::exception& e) {
@@ -269,16 +279,17 @@ void runCase(verif::Run& run, const std::vector<Tree>& trees, const CaseId& id, 
     std::vector<Sample> G;          // step boundaries since (re)initialization, with the operand value there
     std::vector<double> D[3]; std::vector<char> Dgood;   // approximate-derivative recurrence at the boundaries
     double tInit = 0; int nReturns = 0, nInterp = 0;
+    double recAmp = 0;     // sum over the steps so far of 2/h: rounding of (f-f0)/(t-t0) is carried undamped by the recurrence
     double icv[3]; for (int c = 0; c < NC; ++c) icv[c] = PP->ic[c];
     double intBase[3] = {0, 0, 0};      // integral value at tInit
     for (int c = 0; c < NC; ++c) intBase[c] = icv[c];
     auto startRecord = [&](double t0) {
-        G.clear(); for (auto& d : D) d.clear(); Dgood.clear(); tInit = t0;
+        G.clear(); for (auto& d : D) d.clear(); Dgood.clear(); tInit = t0; recAmp = 0;
         Sample s; s.t = t0; for (int c = 0; c < NC; ++c) s.f[c] = F(c, t0); G.push_back(s);
         for (int c = 0; c < NC; ++c) D[c].push_back(0.0); Dgood.push_back(0);
     };
     startRecord(0);
-    double hMaxSeen = 0;
+    double hMaxSeen = 0;     // sum over the steps so far of 1/h: rounding of (f-f0)/(t-t0) is carried undamped by the recurrence
     State firstCopy; bool haveFirstCopy = false; double firstCopyVal[3] = {0, 0, 0}; double firstCopyT = 0;
 
     // ---- judge one returned state
@@ -288,6 +299,7 @@ void runCase(verif::Run& run, const std::vector<Tree>& trees, const CaseId& id, 
         const T& val = m.getValue(x);
         // which step does this state belong to?
         int nb = (int)G.size();
+        if (run.verbose) printf("  return t=%.17g interpolated=%d lastBoundary=%.17g nBoundaries=%d value=%.17g operand-now=%.17g\n", t, (int)interpolated, G.back().t, nb, Num<T>::get(val, 0), F(0, t));
         bool newEnd = !interpolated && t > G.back().t;
         int nbuf = (interpolated || newEnd) ? nb : std::max(1, nb - 1);     // samples held in the auto-update variable
         if (!interpolated && !newEnd && nb == 1) nbuf = 1;
@@ -299,52 +311,57 @@ void runCase(verif::Run& run, const std::vector<Tree>& trees, const CaseId& id, 
             const double fNow = F(c, t);
             switch (id.wrap) {
                 case W_NONE:
-                    run.residual(pfx + "value/expression", std::fabs(v - fNow) / sc, 1e-13, wh, rp);
+                    resid("value/expression", std::fabs(v - fNow) / sc, 1e-13, wh, rp);
                     break;
                 case W_INT: {
                     double exact = intBase[c] + cfInt(ex.cf[c], tInit, t, vhc[c]);
                     double err = std::fabs(v - exact);
-                    if (id.integ == I_SEE) run.residual(pfx + "integral/fixed-step-first-order-bound", err / (HFIX * TEND * cfDer1Max(ex.cf[c]) / 2 + 1e-12 * sc), 2.0, wh, rp);
-                    else run.residual(pfx + std::string("integral/error-controlled/") + IN_[id.integ], err / (ACC * sc), 1e4, wh, rp);
+                    if (id.integ == I_SEE) resid("integral/fixed-step-first-order-bound", err / (HFIX * TEND * cfDer1Max(ex.cf[c]) / 2 + 1e-12 * sc), 2.0, wh, rp);
+                    else resid(std::string("integral/error-controlled/") + IN_[id.integ], err / (ACC * sc), INTBOUND[id.integ], wh, rp);
                     break;
                 }
                 case W_DIFF: case W_DIFFA: {
-                    if (!approxDiff) { run.residual(pfx + "derivative/analytic", std::fabs(v - cfDer(ex.cf[c], t)) / (cfDer1Max(ex.cf[c]) + sc), 1e-13, wh, rp); break; }
+                    if (!approxDiff) { resid("derivative/analytic", std::fabs(v - cfDer(ex.cf[c], t)) / (cfDer1Max(ex.cf[c]) + sc), 1e-13, wh, rp); break; }
                     double d;
                     if (t == start.t) d = D[c][nbuf - 1];
                     else { d = (fNow - start.f[c]) / (t - start.t); if (Dgood[nbuf - 1]) d = 2 * d - D[c][nbuf - 1]; }
                     double h = std::max(t - start.t, 1e-300);
-                    run.residual(pfx + "derivative/documented-recurrence/" + ikey, std::fabs(v - d) / (sc / std::min(h, 1.0) * (nb + 1) + std::fabs(d)), 1e-12, wh, rp);
+                    resid("derivative/documented-recurrence/" + ikey, std::fabs(v - d) / (sc * (recAmp + 1 / h) + std::fabs(d)), 1e-13, wh, rp);
                     if (newEnd) D[c].push_back(d);
                     break;
                 }
                 case W_MIN: case W_MAX: case W_MINABS: case W_MAXABS: {
-                    double e = G[0].f[c];
-                    for (int i = 1; i < nbuf; ++i) e = extFold(id.wrap, e, G[i].f[c]);
-                    e = extFold(id.wrap, e, fNow);
-                    run.residual(pfx + "extreme/documented-fold/" + ikey, std::fabs(v - e) / sc, 1e-13, wh, rp);
+                    // documented fold over the samples held at the step start plus the current value; samples whose comparison
+                    // metric ties with the optimum within rounding are all acceptable (the operand is evaluated by the library in
+                    // a different operation order than the closed form)
+                    auto metric = [&](double x) { return id.wrap == W_MAX ? x : id.wrap == W_MIN ? -x : id.wrap == W_MAXABS ? std::fabs(x) : -std::fabs(x); };
+                    double best = metric(fNow); for (int i = 0; i < nbuf; ++i) best = std::max(best, metric(G[i].f[c]));
+                    double res = Infinity; int ties = 0;
+                    auto consider = [&](double x) { if (metric(x) >= best - 1e-12 * sc) { res = std::min(res, std::fabs(v - x)); ties++; } };
+                    for (int i = 0; i < nbuf; ++i) consider(G[i].f[c]);
+                    consider(fNow);
+                    resid("extreme/documented-fold/" + ikey, res / sc, 1e-13, wh, rp);
+                    if (NC == 1) {
+                        double got = ext.getTimeOfExtremeValue(x); double rt = Infinity;
+                        for (int i = 0; i < nbuf; ++i) if (metric(G[i].f[c]) >= best - 1e-12 * sc) rt = std::min(rt, std::fabs(got - G[i].t));
+                        if (metric(fNow) >= best - 1e-12 * sc) rt = std::min(rt, std::fabs(got - t));
+                        resid("extreme/time-of-extreme-value/" + ikey, rt, 1e-13, wh, rp);
+                    }
                     break;
                 }
                 case W_DELAY1: case W_DELAY2: {
                     int cls; double hl; double ref = delayRef(G, nbuf, c, t - tau, cls, hl);
                     static const char* CN[] = {"interpolated", "before-start", "single-sample", "extrapolated"};
                     run.count(std::string("delay-class:") + CN[cls]);
-                    run.residual(pfx + "delay/documented-buffer-algorithm/" + ikey, std::fabs(v - ref) / sc, 1e-12, wh, rp);
+                    resid("delay/documented-buffer-algorithm/" + ikey, std::fabs(v - ref) / sc, 1e-10, wh, rp);
                     if (cls == 0 && !(vhc[c].tSet > t - tau - hl && vhc[c].tSet <= t - tau + hl))     // accuracy of linear interpolation: h^2/8 max|f''|
-                        run.residual(pfx + "delay/interpolation-accuracy", std::fabs(v - F(c, t - tau)) / (hl * hl / 8 * cfDer2Max(ex.cf[c]) + 1e-12 * sc), 1.0 + 1e-9, wh, rp);
+                        resid("delay/interpolation-accuracy", std::fabs(v - F(c, t - tau)) / (hl * hl / 8 * cfDer2Max(ex.cf[c]) + 1e-12 * sc), 1.0 + 1e-9, wh, rp);
                     break;
                 }
             }
         }
-        if (isExt && NC == 1) {
-            // time at which the reported extreme value first occurred
-            double e = G[0].f[0], te = G[0].t;
-            for (int i = 1; i < nbuf; ++i) if (extNew(id.wrap, e, G[i].f[0])) { e = G[i].f[0]; te = G[i].t; }
-            if (extNew(id.wrap, e, F(0, t))) te = t;
-            double got = ext.getTimeOfExtremeValue(x);
-            run.residual(pfx + "extreme/time-of-extreme-value/" + ikey, std::fabs(got - te), 1e-13, wh, rp);
-        }
         if (approxDiff && (id.wrap == W_DIFF || id.wrap == W_DIFFA) && newEnd) Dgood.push_back(1);
+        if (newEnd) recAmp += 2 / (t - G.back().t);
         if (newEnd) { Sample s; s.t = t; for (int c = 0; c < NC; ++c) s.f[c] = F(c, t); hMaxSeen = std::max(hMaxSeen, t - G.back().t); G.push_back(s); }
         uint64_t oh = verif::hashPod(id.wrap); for (int c = 0; c < NC; ++c) { double v = Num<T>::get(val, c); oh = verif::hashPod(v, oh); }
         run.outcome(oh);
@@ -353,7 +370,7 @@ void runCase(verif::Run& run, const std::vector<Tree>& trees, const CaseId& id, 
             State cp(x); sys.realize(cp, Stage::Acceleration);
             const T& v2 = m.getValue(cp);
             double dmax = 0; for (int c = 0; c < NC; ++c) dmax = std::max(dmax, std::fabs(Num<T>::get(v2, c) - Num<T>::get(val, c)));
-            run.residual(pfx + "copy/value-equals-original/" + wname, dmax / scaleAll, id.wrap == W_INT ? 1e-13 : 1e-12, wh, rp);
+            resid("copy/value-equals-original/" + wname, dmax / scaleAll, id.wrap == W_INT ? 1e-13 : 1e-12, wh, rp);
             if (!haveFirstCopy && t >= 0.3) { firstCopy = cp; haveFirstCopy = true; firstCopyT = t; sys.realize(firstCopy, Stage::Acceleration); const T& v3 = m.getValue(firstCopy); for (int c = 0; c < NC; ++c) firstCopyVal[c] = Num<T>::get(v3, c); }
         }
     };
@@ -378,7 +395,7 @@ void runCase(verif::Run& run, const std::vector<Tree>& trees, const CaseId& id, 
                     for (size_t k = 0; k < ex.vars.size(); ++k) ex.vars[k].setValue(adv, Num<T>::make(PP->v1[ex.varSlots[k]]));
                     for (int c = 0; c < NC; ++c) { vhc[c].tSet = t; for (int k = 0; k < 3; ++k) vhc[c].v1[k] = PP->v1[k][c]; }
                     integ->reinitialize(Stage::Instance, false);
-                    if (staleClass) pfx = "Variable-setValue-not-seen-by-Model-stage-caches/";
+                    if (staleClass) staleNow = true;
                     run.count(ex.vars.empty() ? "set-variable-history-without-variable" : "set-variable-history-applied");
                     // the state is judged again at the same time with the new variable value (as the same step end)
                     if (G.size() > 1) { G.pop_back(); if (!Dgood.empty() && Dgood.size() > G.size()) { Dgood.pop_back(); for (int c = 0; c < NC; ++c) D[c].pop_back(); } }
@@ -460,7 +477,7 @@ int isolated(verif::Run& run, const std::function<void()>& fn, const std::functi
 
 int main(int argc, char** argv) {
     verif::Run run("C23", argc, argv);
-    run.setDeadline(300, 2400);
+    run.setDeadline(900, 3600);
     const bool thorough = run.thorough();
     PP = &PSETS[((run.seed % NPSETS) + NPSETS) % NPSETS];
 
@@ -498,11 +515,16 @@ int main(int argc, char** argv) {
         addCases(0, treesR, 2, {H_PLAIN}, {I_RKM, I_SEE}, {G_IRREG});
         addCases(1, treesV, 1, allH, {I_RKM, I_EE, I_CPODES}, {G_NONE, G_IRREG});
     }
+    std::string filter; for (const std::string& a : run.extra) if (a.rfind("--filter=", 0) == 0) filter = a.substr(9);
     auto describe = [&](const CaseId& c) {
         const Tree& t = (c.vec ? treesV : treesR)[c.tree];
         return std::string("type=") + (c.vec ? "Vec3" : "Real") + " expr=" + t.desc + " wrapper=" + WN[c.wrap] + " integrator=" + IN_[c.integ] + " grid=" + GN[c.grid] + " history=" + HN[c.hist];
     };
-    run.parallel("sim", (int64_t)cases.size(), [&](int64_t i) {
+    if (!filter.empty()) {   // development / mutation runs: only the cases whose description contains the given text
+        std::vector<CaseId> kept; for (auto& c : cases) if (describe(c).find(filter) != std::string::npos) kept.push_back(c);
+        cases.swap(kept); run.exhaustive = false; run.extraCoverage["filter"] = "\"" + verif::jsonEscape(filter) + "\"";
+    }
+    auto body = [&](int64_t i) {
         const CaseId& c = cases[i];
         std::string where = describe(c);
         if (getenv("C23_TRACE")) { fprintf(stderr, "CASE %lld %s\n", (long long)i, where.c_str()); fflush(stderr); }
@@ -530,7 +552,20 @@ int main(int argc, char** argv) {
         if (c.vec) runCase<Vec3>(run, treesV, c, where); else runCase<Real>(run, treesR, c, where);
         run.evaluation(verif::hashStr(where), run.acc.counters["returns"] > before);
         if (i % 4999 == 0) run.sample(where);
-    });
+    };
+    if (run.replaying()) {     // replay by case description (independent of tier and filter)
+        std::string want = run.replayField("case"); int64_t found = -1;
+        std::vector<CaseId> all; cases.swap(all); cases.clear();
+        // search the complete space
+        addCases(0, treesR, 2, allH, allI, allG); addCases(1, treesV, 2, allH, allI, allG);
+        for (size_t i = 0; i < cases.size(); ++i) if (describe(cases[i]) == want) { found = (int64_t)i; break; }
+        if (found < 0) { fprintf(stderr, "replay: case not found: %s\n", want.c_str()); return 2; }
+        body(found);
+        for (auto& v : run.acc.viols) printf("  ORACLE key=%s %s\n", v.key.c_str(), v.what.c_str());
+        if (!run.acc.viols.empty()) { printf("VIOLATION property=C23 replay=%s\n", run.replayPath.c_str()); return 1; }
+        return 0;
+    }
+    run.parallel("sim", (int64_t)cases.size(), body);
     run.extraCoverage["trees_real"] = std::to_string(treesR.size());
     run.extraCoverage["trees_vec3"] = std::to_string(treesV.size());
     run.extraCoverage["unexercisable_clause"] = "\"SampleAndHold: declared in Measure.h, no Implementation in the tree\"";
